@@ -53,6 +53,10 @@ CONFIGS = {
     "sdr_2b_2p_bba": (dict(phy="sdr_fast", bankbits=1, colbits=4, nports=2, timing=T_SMALL, ctrl=dict(cmd_buffer_depth=4, bank_byte_alignment=32)), 0, 40, "t"),
 }
 
+CONFIGS["exp_1p_d4"] = (dict(phy="sdr_fast", bankbits=1, nports=1, timing=T_SMALL, ctrl=dict(cmd_buffer_depth=4)), 0, 0, "")
+CONFIGS["exp_2p_d2"] = (dict(phy="sdr_fast", bankbits=1, nports=2, timing=T_SMALL, ctrl=dict(cmd_buffer_depth=2)), 0, 0, "")
+CONFIGS["exp_1p_d2"] = (dict(phy="sdr_fast", bankbits=1, nports=1, timing=T_SMALL, ctrl=dict(cmd_buffer_depth=2)), 0, 0, "")
+CONFIGS["exp_1p_d2_norefresh"] = (dict(phy="sdr_fast", bankbits=1, nports=1, timing=T_SMALL, ctrl=dict(cmd_buffer_depth=2, with_refresh=False)), 0, 0, "")
 BENCHES = {n: partial(corebench.core_bench, n, c[0], None, True, _extra) for n, c in CONFIGS.items()}
 
 
